@@ -409,6 +409,12 @@ func runC09(c *core.Ctx) {
 			o, s := c09RunSched(cfg, m)
 			return core.Exec{Sched: s, Outcome: fmt.Sprintf("sched status=%s errs=%d", m.Status, len(o.errs)), Viol: c09JudgeSched(m, o)}
 		})
+		if c.Mine(int64(m.Status)) {
+			c.ExploreSlow(m, vsched.Config{}, []int{0, 150, 300}, func(cfg vsched.Config) core.Exec {
+				o, s := c09RunSched(cfg, m)
+				return core.Exec{Sched: s, Outcome: fmt.Sprintf("sched status=%s errs=%d", m.Status, len(o.errs)), Viol: c09JudgeSched(m, o)}
+			})
+		}
 	}
 }
 
@@ -423,7 +429,7 @@ func init() {
 				Prefix []int   `json:"prefix"`
 			}
 			if json.Unmarshal(raw, &w) == nil && w.Label != nil && w.Label.Status != 0 {
-				o, _ := c09RunSched(vsched.Config{Prefix: w.Prefix}, *w.Label)
+				o, _ := c09RunSched(core.CfgFromReplay(raw), *w.Label)
 				if v := c09JudgeSched(*w.Label, o); v != nil {
 					return v.Signature + ": " + v.What
 				}
